@@ -1,4 +1,6 @@
 import BstreamVerif.Model.FileSourceSeq
+import BstreamVerif.Conc.Pipeline
+import BstreamVerif.Facts
 /-!
 # C10 — file source delivery is ordered, contiguous, complete
 
@@ -246,5 +248,160 @@ private def bC : Blk := { id := "c", num := 3, parent := "b", lib := 0 }
 private def bX : Blk := { id := "x", num := 4, parent := "q", lib := 0 }
 example : run ⟨2, 3, 2, []⟩ [⟨0, [bA]⟩, ⟨2, [bB, bC]⟩] none = ([bB, bC], .stopReached) := by decide
 example : run ⟨2, 0, 2, []⟩ [⟨0, [bA]⟩, ⟨2, [bB, bC]⟩, ⟨4, [bX]⟩] none = ([bB, bC], .nonSequential "x") := by decide
+
+/-! ## "for every relative timing of the parallel preprocessors": the ordered-pipeline skeleton
+
+`Conc/Pipeline.lean` models the synchronisation skeleton of `FileSource.streamReader`: one result channel per block,
+queued in read order on a bounded channel, workers finishing in any order, a forwarder that waits for the oldest queued
+result. For **every schedule** the consumer receives the blocks in exactly the order they were read, each paired with
+the preprocess result computed for that same block. That the code has this skeleton is a fact regenerated from
+/repo by the go/ast extractor on every run (`pipeline_skeleton_in_source`). -/
+section Pipeline
+open BstreamVerif.Conc.Pipeline
+
+variable {α β : Type}
+
+/-- invariant of the pipeline: delivered ++ queued ++ not-yet-read is the input, every result is the block's own -/
+structure PInv (f : α → β) (input : List α) (s : St α β) : Prop where
+  order : s.delivered.map (·.1) ++ s.q.map (·.1) ++ s.todo = input
+  deliveredOwn : ∀ p ∈ s.delivered, p.2 = f p.1
+  queuedOwn : ∀ p ∈ s.q, ∀ r, p.2 = some r → r = f p.1
+
+theorem setDone_spec (f : α → β) (i : Nat) (q q' : List (α × Option β)) (h : setDone f i q = some q') :
+    q'.map (·.1) = q.map (·.1) ∧
+    ((∀ p ∈ q, ∀ r, p.2 = some r → r = f p.1) → ∀ p ∈ q', ∀ r, p.2 = some r → r = f p.1) := by
+  induction q generalizing i q' with
+  | nil => simp [setDone] at h
+  | cons x t ih =>
+    cases i with
+    | zero =>
+      obtain ⟨b, o⟩ := x
+      cases o with
+      | none =>
+        simp only [setDone, Option.some.injEq] at h
+        subst h
+        refine ⟨rfl, ?_⟩
+        intro hq p hp r hr
+        simp only [List.mem_cons] at hp
+        rcases hp with rfl | hp
+        · simp only [Option.some.injEq] at hr; exact hr.symm
+        · exact hq p (by simp [hp]) r hr
+      | some r => simp [setDone] at h
+    | succ j =>
+      simp only [setDone, Option.map_eq_some_iff] at h
+      obtain ⟨t', ht', rfl⟩ := h
+      obtain ⟨h1, h2⟩ := ih j t' ht'
+      refine ⟨by simp [h1], ?_⟩
+      intro hq p hp r hr
+      simp only [List.mem_cons] at hp
+      rcases hp with rfl | hp
+      · exact hq _ (by simp) r hr
+      · exact h2 (fun p' hp' => hq p' (by simp [hp'])) p hp r hr
+
+theorem step_pinv (f : α → β) (cap : Nat) (input : List α) (s s' : St α β) (a : Act) (h : PInv f input s)
+    (hs : step f cap s a = some s') : PInv f input s' := by
+  cases a with
+  | read =>
+    unfold step at hs
+    cases htd : s.todo with
+    | nil => rw [htd] at hs; cases hs
+    | cons b rest =>
+      rw [htd] at hs
+      simp only at hs
+      split at hs
+      · injection hs with hs
+        subst hs
+        refine ⟨?_, h.deliveredOwn, ?_⟩
+        · have := h.order; rw [htd] at this
+          simpa [List.append_assoc] using this
+        · intro p hp r hr
+          simp only [List.mem_append, List.mem_singleton] at hp
+          rcases hp with hp | rfl
+          · exact h.queuedOwn p hp r hr
+          · cases hr
+      · cases hs
+  | finish i =>
+    unfold step at hs
+    simp only [Option.map_eq_some_iff] at hs
+    obtain ⟨q', hq', rfl⟩ := hs
+    obtain ⟨h1, h2⟩ := setDone_spec f i s.q q' hq'
+    exact ⟨by simp only; rw [h1]; exact h.order, h.deliveredOwn, h2 h.queuedOwn⟩
+  | forward =>
+    unfold step at hs
+    cases hq : s.q with
+    | nil => rw [hq] at hs; cases hs
+    | cons x rest =>
+      obtain ⟨b, o⟩ := x
+      cases o with
+      | none => rw [hq] at hs; cases hs
+      | some r =>
+        rw [hq] at hs
+        simp only [Option.some.injEq] at hs
+        subst hs
+        refine ⟨?_, ?_, ?_⟩
+        · have := h.order; rw [hq] at this
+          simpa [List.append_assoc] using this
+        · intro p hp
+          simp only [List.mem_append, List.mem_singleton] at hp
+          rcases hp with hp | rfl
+          · exact h.deliveredOwn p hp
+          · exact h.queuedOwn (b, some r) (by rw [hq]; simp) r rfl
+        · intro p hp r' hr'
+          exact h.queuedOwn p (by rw [hq]; simp [hp]) r' hr'
+
+theorem run_pinv (f : α → β) (cap : Nat) (input : List α) (sched : List Act) (s : St α β) (h : PInv f input s) :
+    PInv f input (Conc.Pipeline.run f cap s sched) := by
+  induction sched generalizing s with
+  | nil => exact h
+  | cons a as ih =>
+    unfold Conc.Pipeline.run
+    cases hs : step f cap s a with
+    | none => exact ih s h
+    | some s' => exact ih s' (step_pinv f cap input s s' a h hs)
+
+/-- **order and pairing for every schedule**: whatever the relative timing of reader, workers and forwarder, the
+    consumer has received a prefix of the blocks in read order, each with the preprocess result of that same block;
+    and when nothing is left to read or queued it has received all of them -/
+theorem pipeline_order_any_schedule (f : α → β) (cap : Nat) (input : List α) (sched : List Act) :
+    (Conc.Pipeline.run f cap (init input) sched).delivered <+: input.map (fun b => (b, f b)) ∧
+    ((Conc.Pipeline.run f cap (init input) sched).todo = [] → (Conc.Pipeline.run f cap (init input) sched).q = [] →
+      (Conc.Pipeline.run f cap (init input) sched).delivered = input.map (fun b => (b, f b))) := by
+  have h0 : PInv f input (init input : St α β) := ⟨by simp [init], by simp [init], by simp [init]⟩
+  have h := run_pinv f cap input sched _ h0
+  generalize Conc.Pipeline.run f cap (init input) sched = s at h
+  have hd : s.delivered = (s.delivered.map (·.1)).map (fun b => (b, f b)) := by
+    rw [List.map_map]
+    conv => lhs; rw [← List.map_id s.delivered]
+    apply List.map_congr_left
+    intro p hp
+    simp only [id, Function.comp]
+    rw [← h.deliveredOwn p hp]
+  refine ⟨?_, ?_⟩
+  · rw [hd, ← h.order, List.map_append, List.map_append, List.append_assoc]
+    exact List.prefix_append _ _
+  · intro ht hq
+    have := h.order
+    rw [ht, hq] at this
+    simp only [List.map_nil, List.append_nil] at this
+    rw [hd, this]
+
+/-- no deadlock: as long as something is left to read or queued, some thread can move (capacity ≥ 1) -/
+theorem pipeline_no_deadlock (f : α → β) (cap : Nat) (hc : 0 < cap) (s : St α β) (h : ¬ (s.todo = [] ∧ s.q = [])) :
+    ∃ a, (step f cap s a).isSome = true := by
+  cases hq : s.q with
+  | cons x rest =>
+    obtain ⟨b, o⟩ := x
+    cases o with
+    | some r => exact ⟨.forward, by simp [step, hq]⟩
+    | none => exact ⟨.finish 0, by simp [step, hq, setDone]⟩
+  | nil =>
+    cases ht : s.todo with
+    | nil => exact absurd ⟨ht, hq⟩ h
+    | cons b rest => exact ⟨.read, by simp [step, ht, hq, hc]⟩
+
+/-- the skeleton found in the current source (regenerated fact) -/
+theorem pipeline_skeleton_in_source : BstreamVerif.Facts.fileSrc.orderedPipeline = true := by decide
+
+end Pipeline
 
 end BstreamVerif.Props.C10
